@@ -48,7 +48,74 @@ def scan(root="/repo/skactiveml"):
     return sites
 
 
+# ---------------------------------------------------------------------------------------------
+# every *use* of a sentinel expression (a name / attribute containing `missing_label`) outside the
+# label helpers: it may be handed on (keyword missing_label=..., known helper / constructor
+# arguments, fill values, assignments, messages) but not compared with labels by hand
+# (==, !=, in, np.isnan, np.setdiff1d, np.isin, list literals, ...).
+HELPER_FILES = ("skactiveml/utils/_label.py", "skactiveml/utils/_label_encoder.py", "skactiveml/utils/_validation.py")
+PASS_ON_KW = {"missing_label", "fill_value", "missing_label1", "missing_label2"}
+PASS_ON_CALLEES = PREDS | {"check_equal_missing_label", "check_missing_label", "check_classifier_params", "type", "isinstance",
+                           "full", "ExtLabelEncoder", "k_greedy_center", "_alce"}
+# reviewed by hand: sentinel compared with another *sentinel* (parameter consistency checks), never with labels
+REVIEWED = {
+    ("skactiveml/pool/multiannotator/_wrapper.py", "query", "Compare"),
+    ("skactiveml/pool/multiannotator/_wrapper.py", "query", "arg:isnan"),
+    ("skactiveml/classifier/multiannotator/_annotator_ensemble_classifier.py", "_validate_estimators", "List"),
+}
+
+
+def scan_uses(root="/repo/skactiveml"):
+    sites = []
+    for dp, dn, fs in os.walk(root):
+        parts = dp.split(os.sep)
+        if "tests" in parts or "visualization" in parts:
+            continue
+        for f in sorted(fs):
+            if not f.endswith(".py"):
+                continue
+            path = os.path.join(dp, f)
+            rel = os.path.relpath(path, "/repo")
+            if rel in HELPER_FILES:
+                continue
+            tree = ast.parse(open(path).read())
+            parents, funcs = {}, {}
+            for n in ast.walk(tree):
+                for c in ast.iter_child_nodes(n):
+                    parents[id(c)] = n
+                if isinstance(n, (ast.FunctionDef, ast.AsyncFunctionDef)):
+                    for sub in ast.walk(n):
+                        funcs.setdefault(id(sub), n.name)
+            for n in ast.walk(tree):
+                nm = n.id if isinstance(n, ast.Name) else (n.attr if isinstance(n, ast.Attribute) else None)
+                if not (nm and "missing_label" in nm and isinstance(getattr(n, "ctx", None), ast.Load)):
+                    continue
+                par = parents.get(id(n))
+                if isinstance(par, ast.Attribute):
+                    continue                                  # est.missing_label: the outer attribute node is visited itself
+                fn = funcs.get(id(n), "<module>")
+                if isinstance(par, ast.Call) and n is par.func:
+                    continue                                  # a helper whose *name* mentions missing_label being called
+                if isinstance(par, ast.keyword):
+                    kind, ok = f"kw:{par.arg}", par.arg in PASS_ON_KW
+                elif isinstance(par, ast.Call) and n is not par.func:
+                    callee = par.func.attr if isinstance(par.func, ast.Attribute) else getattr(par.func, "id", "?")
+                    kind, ok = f"arg:{callee}", callee in PASS_ON_CALLEES
+                elif isinstance(par, (ast.Assign, ast.AnnAssign, ast.FormattedValue, ast.Return, ast.Expr)):
+                    kind, ok = type(par).__name__, True
+                else:
+                    kind, ok = type(par).__name__, False       # Compare, List, Tuple, BinOp, Subscript, ...
+                if not ok and (rel, fn, kind) in REVIEWED:
+                    ok = True
+                sites.append((rel, fn, n.lineno, kind, ast.unparse(n), ok))
+    return sites
+
+
 if __name__ == "__main__":
+    for s in scan_uses():
+        if not s[5]:
+            print("USE", s)
+    print(len(scan_uses()), "uses")
     for s in scan():
         if not s[5]:
             print(s)
